@@ -480,6 +480,55 @@ struct Model {
         json ret = json::array();
         for (int b = 0; b < S->NumberOfBlocks(); ++b) ret.push_back(D->isRetained(BlockNumber(b)));
         r["retained"] = ret;
+        if (q.value("traces", false)) {
+            // independent reference: rho in the Fock basis from the stored eigenvectors and the weights, traced with operators
+            // whose action on Fock states is written out here (sign = parity of the occupied modes below the one acted on)
+            CMat rho = CMat::Zero(NS, NS);
+            for (int b = 0; b < S->NumberOfBlocks(); ++b) {
+                const MatrixType& U = H->getPart(BlockNumber(b)).getMatrix();
+                const std::vector<FockState>& fs = S->getFockStates(BlockNumber(b));
+                const DensityMatrixPart& dp = D->getPart(BlockNumber(b));
+                for (int k = 0; k < U.cols(); ++k) {
+                    double wk = dp.getWeight(k);
+                    for (size_t a = 0; a < fs.size(); ++a) for (size_t c2 = 0; c2 < fs.size(); ++c2)
+                        rho(fs[a].to_ulong(), fs[c2].to_ulong()) += wk * ComplexType(U(a, k)) * std::conj(ComplexType(U(c2, k)));
+                }
+            }
+            auto below = [](unsigned long f, int i) { int n = 0; for (int k = 0; k < i; ++k) n += (f >> k) & 1; return n; };
+            json to = json::array(), td = json::array(), ta = json::array();
+            for (int i = 0; i < M; ++i) {
+                ComplexType t = 0;
+                for (unsigned long f = 0; f < NS; ++f) if ((f >> i) & 1) t += rho(f, f);
+                to.push_back(cj(t));
+            }
+            for (int i = 0; i < M; ++i) for (int j = 0; j < M; ++j) {
+                ComplexType t = 0;
+                for (unsigned long f = 0; f < NS; ++f) if (((f >> i) & 1) && ((f >> j) & 1)) t += rho(f, f);
+                td.push_back(json::array({i, j, cj(t)}));
+            }
+            for (int i = 0; i < M; ++i) for (int j = 0; j < M; ++j) {
+                // Tr(rho c^+_i c_j) = sum_f <f'| rho |f> ... with c^+_i c_j |f> = sgn |f'>
+                ComplexType t = 0;
+                for (unsigned long f = 0; f < NS; ++f) {
+                    if (!((f >> j) & 1)) continue;
+                    int sg = below(f, j) & 1;
+                    unsigned long g = f & ~(1ul << j);
+                    if ((g >> i) & 1) continue;
+                    sg ^= below(g, i) & 1;
+                    unsigned long f2 = g | (1ul << i);
+                    t += (sg ? -1.0 : 1.0) * rho(f, f2);
+                }
+                ta.push_back(json::array({i, j, cj(t)}));
+            }
+            r["tr_occ_i"] = to; r["tr_docc"] = td; r["tr_avg"] = ta;
+            // Tr(rho H) with H applied as an operator expression to every Fock state (independent of the diagonalisation)
+            ComplexType te = 0;
+            for (unsigned long f = 0; f < NS; ++f) {
+                std::map<FockState, MelemType> img = HS->actRight(FockState(IC->getIndexSize(), f));
+                for (auto& kv : img) te += rho(f, kv.first.to_ulong()) * ComplexType(kv.second);
+            }
+            r["tr_E"] = cj(te);
+        }
         if (q.value("averages", true)) {
             json ea = json::array();
             for (int i = 0; i < M; ++i) for (int j = 0; j < M; ++j) {
